@@ -1,5 +1,5 @@
 """C08 — NUTS: correspondence of one transition (scripted draws, exact rational model) + invariant oracles."""
-import math, itertools, contextlib
+import math, itertools, contextlib, time
 import numpy as np
 from fractions import Fraction
 from harness.core import import_cuqi, quiet, q, qv, qm, pv, pm, close, vclose
@@ -41,8 +41,12 @@ def scripted(script):
 WALLVAL = {"nan": float("nan"), "inf": float("inf"), "-inf": float("-inf")}
 
 
-def make_target(cuqi, P, b, wall, wall_kind="nan"):
+def make_target(cuqi, P, b, wall, wall_kind="nan", center=None, const=0.0):
+    """log-density  b.x - x.P.x/2 + const;  with `center` m (then b = P m in the model) it is evaluated in the centred form
+    -(x-m).P.(x-m)/2 + const, which differs from the model's value by the constant m.P.m/2 (no decision depends on it) and
+    stays accurate in floating point far from the origin"""
     P = np.array(P, dtype=float); b = np.array(b, dtype=float)
+    m = None if center is None else np.array(center, dtype=float)
     calls = {"n": 0}
 
     def logpdf(x):
@@ -50,10 +54,14 @@ def make_target(cuqi, P, b, wall, wall_kind="nan"):
         calls["n"] += 1
         if wall is not None and x[0] > wall:
             return WALLVAL[wall_kind]
-        return float(b @ x - 0.5 * x @ (P @ x))
+        if m is not None:
+            return float(-0.5 * (x - m) @ (P @ (x - m)) + const)
+        return float(b @ x - 0.5 * x @ (P @ x) + const)
 
     def grad(x):
         x = np.asarray(x, dtype=float).ravel()
+        if m is not None:
+            return -(P @ (x - m))
         return b - P @ x
 
     return cuqi.distribution.UserDefinedDistribution(dim=len(b), logpdf_func=logpdf, gradient_func=grad), calls
@@ -104,7 +112,7 @@ def gen_tight(rng, thorough):
 
 
 def run_impl(cuqi, case, iface):
-    target, calls = make_target(cuqi, case["P"], case["b"], case["wall"], case.get("wall_kind", "nan"))
+    target, calls = make_target(cuqi, case["P"], case["b"], case["wall"], case.get("wall_kind", "nan"), case.get("center"), case.get("const", 0.0))
     x0 = np.array(case["x"], dtype=float)
     if case.get("int_x0"):
         x0 = np.array([int(v) for v in case["x"]])     # integer-dtype start point (users do pass np.array([3, -2]))
@@ -166,11 +174,14 @@ def line_of(case, guard):
 def float_orbit(case, kmax):
     """independent float leapfrog orbit z_k, k=-kmax..kmax, with Hamiltonians (harness-side reference)"""
     P = np.array(case["P"], float); b = np.array(case["b"], float); eps = case["eps"]
+    m = None if case.get("center") is None else np.array(case["center"], float); const = case.get("const", 0.0)
     def lp(x):
         if case["wall"] is not None and x[0] > case["wall"]:
             return WALLVAL[case.get("wall_kind", "nan")]
-        return float(b @ x - 0.5 * x @ (P @ x))
-    def g(x): return b - P @ x
+        if m is not None:
+            return float(-0.5 * (x - m) @ (P @ (x - m)) + const)
+        return float(b @ x - 0.5 * x @ (P @ x) + const)
+    def g(x): return -(P @ (x - m)) if m is not None else b - P @ x
     x0 = np.array(case["x"], float); r0 = np.array(case["r"], float)
     orbit = {0: (x0, r0, lp(x0) - 0.5 * r0 @ r0)}
     for sgn in (1, -1):
@@ -649,6 +660,142 @@ def adapt_stream(ctx, cuqi, rng, n):
     ctx.extra_cov["c08_adapt"] = hist
 
 
+class _SymU:
+    """a 'symbolic' uniform draw: every use in both implementations is `rand() < p`; the comparison reports p to the
+    enumerator, which explores both outcomes and weighs them p / 1-p — the exact law of a transition, no sampling"""
+    __slots__ = ("en",)
+    def __init__(self, en): self.en = en
+    def __lt__(self, p):
+        return self.en.decide(float(p))
+    def __float__(self):
+        raise TypeError("uniform draw used other than in `rand() < p`")
+
+
+class _Enum:
+    def __init__(self, prefix):
+        self.prefix, self.path, self.prob, self.alts = list(prefix), [], 1.0, []
+    def decide(self, p):
+        p = 0.0 if not (p > 0.0) else (1.0 if p >= 1.0 else p)
+        i = len(self.path)
+        if i < len(self.prefix):
+            b = self.prefix[i]
+        else:
+            b = p > 0.0
+            if 0.0 < p < 1.0:
+                self.alts.append(self.path + [False])
+        self.path.append(b)
+        self.prob *= p if b else (1.0 - p)
+        return b
+
+
+def transition_law(cuqi, case, iface, x, r, e):
+    """exact law {next point (rounded tuple): probability} of ONE transition of the implementation from (x, r) with slice
+    offset e, over all outcomes of its uniform draws (depth-first over the `rand() < p` decisions)"""
+    target, _ = make_target(cuqi, case["P"], case["b"], None)
+    law = {}; stack = [[]]; paths = 0
+    while stack:
+        prefix = stack.pop()
+        en = _Enum(prefix)
+        saved = (np.random.rand, np.random.standard_normal, np.random.exponential)
+        np.random.rand = lambda *a: _SymU(en)
+        np.random.standard_normal = lambda size=None: np.array(r, dtype=float)
+        np.random.exponential = lambda scale=1.0, size=None: (np.array([e]) if size is not None else e)
+        try:
+            with quiet():
+                if iface == "exp":
+                    from cuqi.experimental.mcmc import NUTS
+                    s = NUTS(target, initial_point=np.array(x, float), max_depth=case["md"], step_size=case["eps"])
+                    s._ensure_initialized(); s.sample(1)
+                    xn = np.asarray(s.current_point, float).ravel()
+                else:
+                    from cuqi.sampler import NUTS
+                    s = NUTS(target, x0=np.array(x, float), max_depth=case["md"], adapt_step_size=case["eps"])
+                    xn = np.asarray(s.sample(2, 0).samples[:, 1], float).ravel()
+        finally:
+            np.random.rand, np.random.standard_normal, np.random.exponential = saved
+        paths += 1
+        if en.prob > 0.0:
+            k = tuple(np.round(xn, 9))
+            law[k] = law.get(k, 0.0) + en.prob
+        stack.extend(en.alts)
+        if paths > 3000:
+            return None, paths
+    return law, paths
+
+
+def reversibility_case(ctx, cuqi, case, iface, e0, key):
+    """returns None if the case is unusable (margins, degenerate orbit), else the number of failures reported"""
+    K = 2 ** (case["md"] + 1)
+    orb = float_orbit(case, 2 * K)
+    if len(orb) < 4 * K + 1 or not all(np.all(np.isfinite(orb[k][0])) and abs(orb[k][2]) < 1e6 for k in orb):
+        return None
+    logu = orb[0][2] - e0
+    hams = np.array([orb[k][2] for k in sorted(orb)])
+    if np.min(np.abs(hams - logu)) < 1e-6 or np.min(np.abs(hams - logu + 1000)) < 1e-6:
+        return None
+    # U-turn products of every pair of orbit points must be away from 0 (the kernels from different starts recompute them)
+    idx = sorted(orb)
+    for a in idx:
+        for b_ in idx:
+            if a < b_ and b_ - a < K + 1:
+                d_ = orb[b_][0] - orb[a][0]
+                if min(abs(d_ @ orb[a][1]), abs(d_ @ orb[b_][1])) < 1e-7:
+                    return None
+    pts = {tuple(np.round(orb[k][0], 9)): k for k in idx}
+    if len(pts) < len(idx):
+        return None
+    law0, paths = transition_law(cuqi, case, iface, orb[0][0], orb[0][1], e0)
+    if law0 is None:
+        return None
+    desc = {"iface": iface, "P": case["P"], "b": case["b"], "x": case["x"], "r": case["r"], "eps": case["eps"], "md": case["md"], "e": e0, "paths_from_0": paths}
+    nf = 0
+    tot = sum(law0.values())
+    if abs(tot - 1.0) > 1e-9:
+        ctx.fail(key, desc, 1.0, tot, "the branch probabilities of one transition do not sum to one"); nf += 1
+    P0 = {}
+    for pt, pr in law0.items():
+        if pt not in pts:
+            ctx.fail(key, {**desc, "point": list(pt)}, "a point of the leapfrog orbit", list(pt), "the transition reaches a point off the leapfrog orbit"); nf += 1
+        else:
+            P0[pts[pt]] = pr
+    moved = [j for j in P0 if j != 0 and P0[j] > 1e-12]
+    if nf or not moved:
+        return nf if nf else None
+    ctx.case("orbit-reversibility", {**desc, "reached": sorted(P0)})
+    for j in sorted(moved):
+        if orb[j][2] < logu:
+            ctx.fail(key, {**desc, "j": j}, "selected points lie in the slice", {"H_j - log u": orb[j][2] - logu}, "a point outside the slice is selected with positive probability"); nf += 1; continue
+        lawj, _ = transition_law(cuqi, case, iface, orb[j][0], orb[j][1], orb[j][2] - logu)
+        if lawj is None:
+            continue
+        back = sum(pr for pt, pr in lawj.items() if pts.get(pt) == 0)
+        if abs(back - P0[j]) > 1e-9:
+            ctx.fail(key, {**desc, "j": j}, {"P(0->j)": P0[j]}, {"P(j->0)": back},
+                     "the transition kernel on the orbit is not reversible w.r.t. the uniform law on the in-slice points (the target is not left invariant)"); nf += 1
+    return nf
+
+
+def oracle_reversible(ctx, cuqi, rng, ncfg):
+    """implementation-only, exact: with momentum and slice level fixed, the transition is a Markov kernel on the leapfrog
+    orbit; NUTS leaves the target invariant because this kernel is reversible w.r.t. the uniform law on the in-slice orbit
+    points (model side: nuts_orbit_reversible).  The law P(0 -> .) is computed exactly (symbolic uniform draws); for every j
+    it reaches, the law P(j -> .) from z_j (same orbit, same absolute slice level) must return to 0 with the same probability."""
+    budget = 15.0 * ncfg / 5
+    for iface in ("exp", "legacy"):
+        done = 0; tries = 0; t_start = time.time()
+        while done < ncfg and tries < 30 * ncfg:
+            tries += 1
+            case = gen_tight(rng, False) if tries % 2 else gen_case(rng, False)
+            case["wall"] = None; case["md"] = rng.choice([1, 2, 2, 2]); case["int_x0"] = False
+            if iface == "legacy" and case["eps"] == 1.0:
+                case["eps"] = 0.5
+            if time.time() - t_start > budget:
+                ctx.note(f"oracle_reversible: time budget reached after {done} {iface} orbits"); break
+            e0 = rng.choice([1 / 16, 1 / 8, 1 / 4, 1 / 2, 1.0, 2.0])
+            if reversibility_case(ctx, cuqi, case, iface, e0, f"NUTS:{iface}:reversibility") is not None:
+                done += 1
+
+
 def run(ctx):
     cuqi = import_cuqi()
     thorough = ctx.tier == "thorough"
@@ -663,6 +810,21 @@ def run(ctx):
     for c in cases[: N // 8]:
         if c["wall"] is not None:
             c["us"] = [u if rng.random() > 0.3 else 0.0 for u in c["us"]]
+    # far-from-origin / large-offset variants: the same dynamics translated to a centre of size 1e4..1e7, and log-densities
+    # shifted by a constant of size up to 1e7 (unnormalised posteriors): no decision of the sampler may depend on either
+    for c in cases:
+        if c.get("int_x0") or rng.random() > 0.2:
+            continue
+        if rng.random() < 0.6:
+            mag = rng.choice([1e4, 1e6, 1e7])
+            m = [float(rng.choice([-1, 1]) * mag + rng.randint(-3, 3)) for _ in range(c["d"])]
+            c["center"] = m
+            c["b"] = [float(sum(Fraction(c["P"][i][j]) * Fraction(m[j]) for j in range(c["d"]))) for i in range(c["d"])]
+            c["x"] = [m[i] + c["x"][i] for i in range(c["d"])]
+            if c["wall"] is not None:
+                c["wall"] = c["wall"] + m[0]
+        if rng.random() < 0.6:
+            c["const"] = rng.choice([-1e6, -1e5, 3e5, -1e7])
     jobs = []
     for i, c in enumerate(cases):
         iface = "exp" if i % 2 == 0 else "legacy"
@@ -689,9 +851,10 @@ def run(ctx):
                     jobs.append((c2, iface)); nb += 1
     ctx.extra_cov["boundary_variants"] = nb
     outs = ctx.lean.drive([line_of(c, 1) for c, iface in jobs])   # both interfaces carry the finiteness guard (legacy since its repair)
+    n_directed = 0
     skipped = 0; hist = {"acc": 0, "rej": 0, "wall": 0, "depth": {}, "nodes_max": 0, "zero_u": 0}
     for (c, iface), mo in zip(jobs, outs):
-        desc = {k: c[k] for k in ("d", "eps", "md", "x", "r", "e", "wall", "wall_kind")}; desc["iface"] = iface; desc["int_x0"] = bool(c.get("int_x0")); desc["reused_sampler_from"] = c.get("reuse"); desc["acceptance_draw_moved_to_threshold"] = c.get("boundary")
+        desc = {k: c[k] for k in ("d", "eps", "md", "x", "r", "e", "wall", "wall_kind")}; desc["iface"] = iface; desc["int_x0"] = bool(c.get("int_x0")); desc["reused_sampler_from"] = c.get("reuse"); desc["acceptance_draw_moved_to_threshold"] = c.get("boundary"); desc["center"] = c.get("center"); desc["const"] = c.get("const", 0.0)
         key = f"NUTS:{iface}:step"
         if mo in ("bad-op", "err-nonfinite-start"):
             ctx.note(f"model refused {desc}: {mo}"); continue
@@ -750,7 +913,12 @@ def run(ctx):
             if not bad and diff[0] != "acceptance statistic":
                 # failing-input search near the disagreement: exhaustive uniformity of the sub-tree sampling, then give up
                 before = len(ctx.failures)
-                oracle_uniform(ctx, cuqi, ctx.rng, 3)
+                if c["wall"] is None and c["md"] <= 3 and not c.get("reuse") and not c.get("int_x0") and n_directed < 4:
+                    n_directed += 1
+                    # exact reversibility of the orbit kernel at this very input (momentum, slice level, step size)
+                    reversibility_case(ctx, cuqi, c, iface, c["e"], key)
+                if len(ctx.failures) == before:
+                    oracle_uniform(ctx, cuqi, ctx.rng, 3)
                 if len(ctx.failures) > before:
                     for fl in ctx.failures[before:]:
                         fl["key"] = key   # tie the exhibited failing input to the broken correspondence
@@ -758,6 +926,7 @@ def run(ctx):
     ctx.extra_cov["skipped_small_margin"] = skipped
     chain_stream(ctx, cuqi, rng, 90 if not thorough else 900)
     adapt_stream(ctx, cuqi, rng, 60 if not thorough else 600)
+    oracle_reversible(ctx, cuqi, rng, 5 if not thorough else 40)
     oracle_uniform(ctx, cuqi, rng, 6 if not thorough else 40)
     oracle_u0(ctx, cuqi, rng, 3 if not thorough else 20)
     oracle_divergence(ctx, cuqi, rng, 3 if not thorough else 20)
